@@ -1,12 +1,21 @@
 /-
-C19 — first theorems; the round-trip / truncation theorems are being added.
+C19 — a damaged .skf (any proper prefix, single-bit flips in the stream
+identifier, in a checksum field or in uncompressed data) is rejected, never
+read as different data.
+
+The frame decoder `unframe` is treated for an arbitrary block decompressor
+`decomp`.  Helper developments: `SkaModel/Lemmas/FrameStep.lean` (one-chunk step
+function, fuel independence), `FramePrefix.lean` (decoder on a prefix),
+`FrameChunks.lean` (chunk lists), `CrcInj.lean` (CRC-32C injectivity, mask),
+`FrameFlip.lean` (bit flips).
 -/
 import SkaModel.Impl.Skf
 import SkaModel.Impl.Frame
+import SkaModel.Lemmas.FrameFlip
 
 namespace SkaModel.Props.C19
 
-open SkaModel
+open SkaModel SkaModel.FR
 
 /-- an empty file is no valid .skf stream content: the frame layer yields no bytes -/
 theorem unframe_nil (d : List UInt8 → Option (List UInt8)) : unframe d [] = .ok [] := by
@@ -20,5 +29,332 @@ theorem T19_first_chunk (d : List UInt8 → Option (List UInt8)) (b0 b1 b2 b3 : 
     intro hc
     exact h (UInt8.toNat_inj.mp (by simpa using hc))
   simp [unframe, unframeFrom, h']
+
+/-- reading a file: un-frame, then CBOR-decode at integer width `W` -/
+def load (decomp : List UInt8 → Option (List UInt8)) (W : Nat) (file : List UInt8) : Option SkfFile :=
+  match unframe decomp file with
+  | .ok bytes => (SkfFile.decode W bytes).map (·.1)
+  | .error _ => none
+
+theorem load_of_error {decomp : List UInt8 → Option (List UInt8)} {file : List UInt8} {e : FrameErr}
+    (h : unframe decomp file = .error e) (W : Nat) : load decomp W file = none := by
+  unfold load; rw [h]
+
+/-- the fuel `file.length + 1` of `unframe` is never exhausted: any larger fuel gives the same result -/
+theorem unframe_fuel_irrelevant (decomp : List UInt8 → Option (List UInt8)) (file : List UInt8)
+    (fuel : Nat) (h : file.length < fuel) : unframeFrom decomp fuel false file [] = unframe decomp file :=
+  unframeFrom_eq_run decomp fuel false file [] h
+
+/-! ### 1. structure of a well-formed stream
+
+`FR.Chunk` = `raw data | comp cdata out | skip ty body | ident`; `FR.render` concatenates the
+chunk bytes (header, masked CRC-32C of the uncompressed data, body); `FR.payload` concatenates
+the data; `Chunk.Valid decomp` = sizes within the limits, `decomp cdata = some out`. -/
+
+/-- the decoder on the stream identifier followed by valid chunks yields their payload -/
+theorem unframe_append_structure (decomp : List UInt8 → Option (List UInt8)) (cs : List Chunk)
+    (hv : ∀ c ∈ cs, c.Valid decomp) :
+    unframe decomp (IDENT ++ render cs) = .ok (payload cs) :=
+  unframe_stream decomp cs hv
+
+/-- … and continues with whatever follows, with the payload as accumulator -/
+theorem unframe_append_structure_tail (decomp : List UInt8 → Option (List UInt8)) (cs : List Chunk)
+    (hv : ∀ c ∈ cs, c.Valid decomp) (t : List UInt8) :
+    unframe decomp (IDENT ++ (render cs ++ t)) =
+      unframeFrom decomp (t.length + 1) true t (payload cs) :=
+  unframe_chunks decomp cs hv t
+
+/-! ### 2. truncation, frame layer -/
+
+/-- A prefix `p` of an accepted stream `p ++ t`: the decoder reports `eof` (cut inside a
+chunk), or the cut is at a chunk boundary and it returns the bytes `b1` of the chunks in `p`,
+where the accepted stream's bytes are `b1 ++ b2` and `b2` is what the decoder produces from
+the cut-off tail `t` alone. -/
+theorem T19_trunc_frames_append (decomp : List UInt8 → Option (List UInt8)) (p t bytes : List UInt8)
+    (hok : unframe decomp (p ++ t) = .ok bytes) :
+    unframe decomp p = .error .eof ∨
+      ∃ b1 b2, unframe decomp p = .ok b1 ∧ bytes = b1 ++ b2 ∧
+        unframeFrom decomp (t.length + 1) (!p.isEmpty) t [] = .ok b2 := by
+  rcases run_append decomp p.length false p t bytes (Nat.le_refl _) hok with h | ⟨b1, b2, h1, h2, h3⟩
+  · exact .inl h
+  · have h2' : run decomp (!p.isEmpty) t [] = .ok b2 := by simpa using h2
+    exact .inr ⟨b1, b2, h1, h3, h2'⟩
+
+/-- the same for `p <+: file` -/
+theorem T19_trunc_frames (decomp : List UInt8 → Option (List UInt8)) (file bytes : List UInt8)
+    (hok : unframe decomp file = .ok bytes) (p : List UInt8) (hp : p <+: file) :
+    unframe decomp p = .error .eof ∨
+      ∃ b1 b2, unframe decomp p = .ok b1 ∧ bytes = b1 ++ b2 ∧
+        unframeFrom decomp ((file.drop p.length).length + 1) (!p.isEmpty) (file.drop p.length) [] = .ok b2 := by
+  have hf : p ++ file.drop p.length = file := List.prefix_iff_eq_append.mp hp
+  rw [← hf] at hok
+  exact T19_trunc_frames_append decomp p _ bytes hok
+
+/-- a truncated stream never yields anything but a prefix of the original bytes -/
+theorem T19_trunc_frames_prefix (decomp : List UInt8 → Option (List UInt8)) (file bytes : List UInt8)
+    (hok : unframe decomp file = .ok bytes) (p : List UInt8) (hp : p <+: file) :
+    unframe decomp p = .error .eof ∨ ∃ b1, unframe decomp p = .ok b1 ∧ b1 <+: bytes := by
+  rcases T19_trunc_frames decomp file bytes hok p hp with h | ⟨b1, b2, h1, h2, _⟩
+  · exact .inl h
+  · exact .inr ⟨b1, h1, h2 ▸ List.prefix_append b1 b2⟩
+
+/-- … a PROPER prefix, unless the cut-off tail contributes no data (it then consists only of
+chunks without data: skippable, padding, identifier chunks, data chunks with empty data; see
+`tail_no_data`) -/
+theorem T19_trunc_frames_proper (decomp : List UInt8 → Option (List UInt8)) (file bytes : List UInt8)
+    (hok : unframe decomp file = .ok bytes) (p : List UInt8) (hp : p <+: file)
+    (htail : unframeFrom decomp ((file.drop p.length).length + 1) (!p.isEmpty) (file.drop p.length) []
+      ≠ .ok []) :
+    unframe decomp p = .error .eof ∨ ∃ b1, unframe decomp p = .ok b1 ∧ b1 <+: bytes ∧ b1 ≠ bytes := by
+  rcases T19_trunc_frames decomp file bytes hok p hp with h | ⟨b1, b2, h1, h2, h3⟩
+  · exact .inl h
+  · refine .inr ⟨b1, h1, h2 ▸ List.prefix_append b1 b2, ?_⟩
+    intro he
+    apply htail
+    rw [h3]
+    have : b2 = [] := by
+      have := congrArg List.length h2
+      rw [he, List.length_append] at this
+      exact List.eq_nil_of_length_eq_zero (by omega)
+    rw [this]
+
+/-- a tail read as no data: each of its chunks contributes none -/
+theorem tail_no_data (decomp : List UInt8 → Option (List UInt8)) (seen : Bool) (t rest out : List UInt8)
+    (h : unframeFrom decomp (t.length + 1) seen t [] = .ok [])
+    (hs : FR.step decomp seen t = .next rest out) :
+    out = [] ∧ unframeFrom decomp (rest.length + 1) true rest [] = .ok [] :=
+  run_nil_step h hs
+
+/-! ### 3. truncation, whole file -/
+
+/-- general form (also covers `p = file`) -/
+theorem T19_trunc_le (decomp : List UInt8 → Option (List UInt8)) (f : SkfFile) (file : List UInt8)
+    (hprefix : ∀ W' p, p <+: f.encode → p ≠ f.encode → SkfFile.decode W' p = none)
+    (hok : unframe decomp file = .ok f.encode)
+    (p : List UInt8) (hp : p <+: file) (W' : Nat) :
+    load decomp W' p = none ∨ load decomp W' p = load decomp W' file := by
+  rcases T19_trunc_frames_prefix decomp file f.encode hok p hp with h | ⟨b1, h1, h2⟩
+  · left; unfold load; rw [h]
+  · by_cases he : b1 = f.encode
+    · right; unfold load; rw [h1, hok, he]
+    · left; unfold load; rw [h1]
+      show Option.map _ (SkfFile.decode W' b1) = none
+      rw [hprefix W' b1 h2 he]; rfl
+
+/-- **C19, truncation**: a truncated file is rejected or decodes to exactly the original
+content, never to something else -/
+theorem T19_trunc (decomp : List UInt8 → Option (List UInt8)) (f : SkfFile) (file : List UInt8)
+    (hprefix : ∀ W' p, p <+: f.encode → p ≠ f.encode → SkfFile.decode W' p = none)
+    (hok : unframe decomp file = .ok f.encode)
+    (p : List UInt8) (hp : p <+: file) (_hne : p ≠ file) (W' : Nat) :
+    load decomp W' p = none ∨ load decomp W' p = load decomp W' file :=
+  T19_trunc_le decomp f file hprefix hok p hp W'
+
+/-- if moreover the cut-off tail carries data, the truncated file is rejected -/
+theorem T19_trunc_reject (decomp : List UInt8 → Option (List UInt8)) (f : SkfFile) (file : List UInt8)
+    (hprefix : ∀ W' p, p <+: f.encode → p ≠ f.encode → SkfFile.decode W' p = none)
+    (hok : unframe decomp file = .ok f.encode)
+    (p : List UInt8) (hp : p <+: file)
+    (htail : unframeFrom decomp ((file.drop p.length).length + 1) (!p.isEmpty) (file.drop p.length) []
+      ≠ .ok []) (W' : Nat) :
+    load decomp W' p = none := by
+  rcases T19_trunc_frames_proper decomp file f.encode hok p hp htail with h | ⟨b1, h1, h2, h3⟩
+  · unfold load; rw [h]
+  · unfold load; rw [h1]
+    show Option.map _ (SkfFile.decode W' b1) = none
+    rw [hprefix W' b1 h2 h3]; rfl
+
+/-! ### 4. single-bit flips -/
+
+/-- flipping any bit of the 10-byte stream identifier is an error (whatever follows, whatever
+the decompressor): `streamHeader` for the type byte, `chunkLength` for the length bytes,
+`headerMismatch` for the body -/
+theorem T19_flip_ident (decomp : List UInt8 → Option (List UInt8)) (rest : List UInt8)
+    (j i : Nat) (hj : j < 10) (hi : i < 8) :
+    unframe decomp (flipAt (IDENT ++ rest) j i) = .error (identFlipErr j) := by
+  rw [flipAt_append_left IDENT rest j i hj]
+  exact unframe_identErr decomp _ rest _ (identErr_flip ⟨j, hj⟩ ⟨i, hi⟩)
+
+/-- CRC-32C detects every error confined to a single byte, in particular every single-bit error -/
+theorem crc_byte (pre post : List UInt8) (x y : UInt8) (hxy : x ≠ y) :
+    crc32c (pre ++ x :: post) ≠ crc32c (pre ++ y :: post) :=
+  crc32c_one_byte pre post hxy
+
+theorem crc_flip (a : List UInt8) (j i : Nat) (hj : j < a.length) (hi : i < 8) :
+    crc32c (flipAt a j i) ≠ crc32c a := by
+  obtain ⟨pre, x, post, h1, h2⟩ := flipAt_split a j i hj
+  rw [h2, h1]
+  exact crc32c_one_byte pre post (flipBit_ne x hi)
+
+theorem crc_masked_flip (a : List UInt8) (j i : Nat) (hj : j < a.length) (hi : i < 8) :
+    crc32cMasked (flipAt a j i) ≠ crc32cMasked a := by
+  obtain ⟨pre, x, post, h1, h2⟩ := flipAt_split a j i hj
+  rw [h2, h1]
+  exact crc32cMasked_one_byte pre post (flipBit_ne x hi)
+
+/-- the ingredients: the LFSR step is injective on 32-bit states and GF(2)-linear; the mask is
+injective -/
+theorem crc_step_injective {x y : Nat} (hx : x < 2 ^ 32) (hy : y < 2 ^ 32) (h : crcBit x = crcBit y) :
+    x = y := crcBit_inj hx hy h
+
+theorem crc_step_linear (x y : Nat) : crcBit (x ^^^ y) = crcBit x ^^^ crcBit y := crcBit_xor x y
+
+theorem crc_mask_injective (a b : List UInt8) (h : crc32cMasked a = crc32cMasked b) :
+    crc32c a = crc32c b :=
+  maskNat_inj (crc32c_lt a) (crc32c_lt b) h
+
+/-- an uncompressed chunk (after the identifier and any valid chunks `cs`) whose 4-byte checksum
+field is anything but the right one: `checksum` error -/
+theorem T19_bad_crc (decomp : List UInt8 → Option (List UInt8)) (cs : List Chunk)
+    (hv : ∀ c ∈ cs, c.Valid decomp) (data crc4 t : List UInt8) (hd : data.length ≤ MAX_BLOCK)
+    (hc : crc4.length = 4) (hbad : crc4 ≠ le4 (crc32cMasked data)) :
+    unframe decomp (IDENT ++ (render cs ++ (0x01 :: (le3 (data.length + 4) ++ (crc4 ++ (data ++ t))))))
+      = .error .checksum := by
+  rw [unframe_chunks decomp cs hv]
+  apply run_err
+  rw [step_raw decomp true crc4 data t hc hd rfl, if_pos]
+  simp only [bne_iff_ne, ne_eq]
+  intro h
+  apply hbad
+  rw [h, le4_leNat hc]
+
+/-- flipping any bit of the checksum field of an uncompressed chunk: `checksum` error -/
+theorem T19_flip_crc (decomp : List UInt8 → Option (List UInt8)) (cs : List Chunk)
+    (hv : ∀ c ∈ cs, c.Valid decomp) (data t : List UInt8) (hd : data.length ≤ MAX_BLOCK)
+    (j i : Nat) (hj : j < 4) (hi : i < 8) :
+    unframe decomp (IDENT ++ (render cs ++
+      (0x01 :: (le3 (data.length + 4) ++ (flipAt (le4 (crc32cMasked data)) j i ++ (data ++ t))))))
+      = .error .checksum :=
+  T19_bad_crc decomp cs hv data _ t hd (by rw [flipAt_length]; rfl) (flipAt_ne _ hj hi)
+
+/-- the same with the flip addressed inside the rendered chunk: bytes 4..7 of `(Chunk.raw data).render` -/
+theorem T19_flip_crc_render (decomp : List UInt8 → Option (List UInt8)) (cs : List Chunk)
+    (hv : ∀ c ∈ cs, c.Valid decomp) (data t : List UInt8) (hd : data.length ≤ MAX_BLOCK)
+    (j i : Nat) (hj : j < 4) (hi : i < 8) :
+    unframe decomp (IDENT ++ (render cs ++ (flipAt (Chunk.raw data).render (4 + j) i ++ t)))
+      = .error .checksum := by
+  have h := T19_flip_crc decomp cs hv data t hd j i hj hi
+  have e : flipAt (Chunk.raw data).render (4 + j) i =
+      0x01 :: (le3 (data.length + 4) ++ (flipAt (le4 (crc32cMasked data)) j i ++ data)) := by
+    show flipAt ((0x01 :: le3 (data.length + 4)) ++ (le4 (crc32cMasked data) ++ data))
+      ((0x01 :: le3 (data.length + 4)).length + j) i = _
+    rw [flipAt_append_right, flipAt_append_left _ _ _ _ (by rw [le4_length]; exact hj)]
+    rfl
+  rw [e]
+  simpa using h
+
+/-- a compressed chunk whose 4-byte checksum field is anything but the right one: `checksum` error -/
+theorem T19_bad_crc_comp (decomp : List UInt8 → Option (List UInt8)) (cs : List Chunk)
+    (hv : ∀ c ∈ cs, c.Valid decomp) (cdata out crc4 t : List UInt8)
+    (hd : cdata.length + 4 ≤ MAX_COMPRESS_BLOCK) (hdec : decomp cdata = some out)
+    (hc : crc4.length = 4) (hbad : crc4 ≠ le4 (crc32cMasked out)) :
+    unframe decomp (IDENT ++ (render cs ++ (0x00 :: (le3 (cdata.length + 4) ++ (crc4 ++ (cdata ++ t))))))
+      = .error .checksum := by
+  rw [unframe_chunks decomp cs hv]
+  apply run_err
+  rw [step_comp decomp true crc4 cdata t hc hd rfl, hdec]
+  show (if _ then _ else _) = _
+  rw [if_pos]
+  simp only [bne_iff_ne, ne_eq]
+  intro h
+  apply hbad
+  rw [h, le4_leNat hc]
+
+/-- flipping any bit of the checksum field of a compressed chunk: `checksum` error -/
+theorem T19_flip_crc_comp (decomp : List UInt8 → Option (List UInt8)) (cs : List Chunk)
+    (hv : ∀ c ∈ cs, c.Valid decomp) (cdata out t : List UInt8)
+    (hd : cdata.length + 4 ≤ MAX_COMPRESS_BLOCK) (hdec : decomp cdata = some out)
+    (j i : Nat) (hj : j < 4) (hi : i < 8) :
+    unframe decomp (IDENT ++ (render cs ++
+      (0x00 :: (le3 (cdata.length + 4) ++ (flipAt (le4 (crc32cMasked out)) j i ++ (cdata ++ t))))))
+      = .error .checksum :=
+  T19_bad_crc_comp decomp cs hv cdata out _ t hd hdec (by rw [flipAt_length]; rfl) (flipAt_ne _ hj hi)
+
+/-- an uncompressed chunk whose data differs from the checksummed data in one byte: `checksum` error -/
+theorem T19_bad_raw (decomp : List UInt8 → Option (List UInt8)) (cs : List Chunk)
+    (hv : ∀ c ∈ cs, c.Valid decomp) (pre post t : List UInt8) (x y : UInt8) (hxy : x ≠ y)
+    (hd : (pre ++ x :: post).length ≤ MAX_BLOCK) :
+    unframe decomp (IDENT ++ (render cs ++ (0x01 :: (le3 ((pre ++ x :: post).length + 4) ++
+      (le4 (crc32cMasked (pre ++ x :: post)) ++ ((pre ++ y :: post) ++ t))))))
+      = .error .checksum := by
+  have hl : (pre ++ x :: post).length = (pre ++ y :: post).length := by simp
+  rw [unframe_chunks decomp cs hv, hl]
+  apply run_err
+  rw [step_raw decomp true _ (pre ++ y :: post) t rfl (hl ▸ hd) rfl, if_pos]
+  rw [leNat_le4 (maskNat_lt' _)]
+  simp only [bne_iff_ne, ne_eq]
+  exact crc32cMasked_one_byte pre post (Ne.symm hxy)
+
+/-- flipping any bit of the data of an uncompressed chunk: `checksum` error -/
+theorem T19_flip_raw (decomp : List UInt8 → Option (List UInt8)) (cs : List Chunk)
+    (hv : ∀ c ∈ cs, c.Valid decomp) (data t : List UInt8) (hd : data.length ≤ MAX_BLOCK)
+    (j i : Nat) (hj : j < data.length) (hi : i < 8) :
+    unframe decomp (IDENT ++ (render cs ++ (0x01 :: (le3 (data.length + 4) ++
+      (le4 (crc32cMasked data) ++ (flipAt data j i ++ t))))))
+      = .error .checksum := by
+  obtain ⟨pre, x, post, h1, h2⟩ := flipAt_split data j i hj
+  rw [h2, h1]
+  exact T19_bad_raw decomp cs hv pre post t x (flipBit x i) (Ne.symm (flipBit_ne x hi)) (h1 ▸ hd)
+
+/-- file level: each of these flips makes `load` fail at every width -/
+theorem T19_flip_ident_load (decomp : List UInt8 → Option (List UInt8)) (rest : List UInt8)
+    (j i : Nat) (hj : j < 10) (hi : i < 8) (W : Nat) :
+    load decomp W (flipAt (IDENT ++ rest) j i) = none :=
+  load_of_error (T19_flip_ident decomp rest j i hj hi) W
+
+theorem T19_flip_crc_load (decomp : List UInt8 → Option (List UInt8)) (cs : List Chunk)
+    (hv : ∀ c ∈ cs, c.Valid decomp) (data t : List UInt8) (hd : data.length ≤ MAX_BLOCK)
+    (j i : Nat) (hj : j < 4) (hi : i < 8) (W : Nat) :
+    load decomp W (IDENT ++ (render cs ++
+      (0x01 :: (le3 (data.length + 4) ++ (flipAt (le4 (crc32cMasked data)) j i ++ (data ++ t)))))) = none :=
+  load_of_error (T19_flip_crc decomp cs hv data t hd j i hj hi) W
+
+theorem T19_flip_raw_load (decomp : List UInt8 → Option (List UInt8)) (cs : List Chunk)
+    (hv : ∀ c ∈ cs, c.Valid decomp) (data t : List UInt8) (hd : data.length ≤ MAX_BLOCK)
+    (j i : Nat) (hj : j < data.length) (hi : i < 8) (W : Nat) :
+    load decomp W (IDENT ++ (render cs ++ (0x01 :: (le3 (data.length + 4) ++
+      (le4 (crc32cMasked data) ++ (flipAt data j i ++ t)))))) = none :=
+  load_of_error (T19_flip_raw decomp cs hv data t hd j i hj hi) W
+
+/-! ### 5. non-vacuity: identifier + one uncompressed chunk `[1, 2, 3]` -/
+
+instance : DecidableEq (Except FrameErr (List UInt8))
+  | .ok a, .ok b =>
+    if h : a = b then isTrue (by rw [h]) else isFalse (by intro h'; injection h' with h'; exact h h')
+  | .error a, .error b =>
+    if h : a = b then isTrue (by rw [h]) else isFalse (by intro h'; injection h' with h'; exact h h')
+  | .ok _, .error _ => isFalse (by intro h; cases h)
+  | .error _, .ok _ => isFalse (by intro h; cases h)
+
+def noDecomp : List UInt8 → Option (List UInt8) := fun _ => none
+
+def smallFile : List UInt8 :=
+  [0xff, 6, 0, 0, 0x73, 0x4e, 0x61, 0x50, 0x70, 0x59, 1, 7, 0, 0, 57, 205, 192, 134, 1, 2, 3]
+
+example : smallFile = IDENT ++ render [.raw [1, 2, 3]] := by decide
+example : unframe noDecomp smallFile = .ok [1, 2, 3] := by decide
+example : unframe noDecomp (smallFile.take 20) = .error .eof := by decide
+example : unframe noDecomp (smallFile.take 12) = .error .eof := by decide
+example : unframe noDecomp (smallFile.take 10) = .ok [] := by decide
+example : unframe noDecomp (flipAt smallFile 19 2) = .error .checksum := by decide
+example : unframe noDecomp (flipAt smallFile 15 7) = .error .checksum := by decide
+example : unframe noDecomp (flipAt smallFile 5 0) = .error .headerMismatch := by decide
+example : unframe noDecomp (flipAt smallFile 0 0) = .error .streamHeader := by decide
+/-- why only "prefix", not "proper prefix", in `T19_trunc_frames_prefix`: a cut-off skippable
+chunk goes unnoticed by the frame layer -/
+example : unframe noDecomp (smallFile ++ [0x80, 1, 0, 0, 9]) = .ok [1, 2, 3] := by decide
+
+/-! ### a flip the frame layer does NOT detect
+
+Flipping bit 7 of the type byte of a data chunk (0x01 → 0x81, 0x00 → 0x80) turns it into a
+skippable chunk of the same length: the decoder silently drops the chunk's data and stays in
+sync.  So "every single-bit flip is an error of the frame layer" is false; for such a flip the
+rejection of the file rests on the CBOR layer seeing bytes with a hole. -/
+
+def twoChunks : List UInt8 := IDENT ++ render [.raw [1, 2, 3], .raw [4, 5]]
+
+example : unframe noDecomp twoChunks = .ok [1, 2, 3, 4, 5] := by decide
+example : unframe noDecomp (flipAt twoChunks 10 7) = .ok [4, 5] := by decide
+example : unframe noDecomp (flipAt smallFile 10 7) = .ok [] := by decide
 
 end SkaModel.Props.C19
